@@ -219,6 +219,20 @@ let () =
       st := saved;
       print_endline "FORKEND OK";
       loop ()
+    | Some [ "KKTU"; id ] ->
+      (* stateless judge: ULP block (query-API view), Z (x ++ logical values), Y (pi), V (objective value):
+         is (Z, Y, V) an exact optimality certificate of to_internal M ULP ? *)
+      (try
+         let hdr = (match next_tokens ic with Some h -> h | None -> failwith "eof") in
+         let (u, _, _) = read_ulp ic hdr in
+         let expect tag = (match next_tokens ic with Some (t :: r) when t = tag -> r | _ -> failwith ("expected " ^ tag)) in
+         let z = qlist (expect "Z") in
+         let y = qlist (expect "Y") in
+         let v = (match expect "V" with [ v ] -> q_of_string v | _ -> failwith "V") in
+         let ok = wf_ulp u && check_kkt (inf_sentinel !sentinel) (to_internal !sentinel u) z y v in
+         Printf.printf "A %s %s\n" id (string_of_bool ok)
+       with Failure m -> Printf.printf "A %s PARSE-ERROR %s\n" id m);
+      loop ()
     | Some toks -> exec toks; loop ()
   in
   loop ()
